@@ -26,7 +26,8 @@ def gen(tier, rng):
         shape = [rng.choice([5, 6, 8]) for _ in range(nd)]
         A, groups = c04._blocks(rng, nd)
         b = [rng.randrange(-3, 4) for _ in range(nd)]
-        shifts = [[0] * nd] + [[rng.choice([0, 0, 1, -1, 2]) for _ in range(nd)] for _ in range(ncube - 1)]   # pixel shifts per cube
+        big = rng.random() < 0.2        # sometimes far enough for the points to fall wholly off one cube on some axis
+        shifts = [[0] * nd] + [[rng.choice([0, 0, 1, -1, 2] + ([5, -5, 7] if big else [])) for _ in range(nd)] for _ in range(ncube - 1)]   # pixel shifts per cube
         npts = rng.choice([1, 2, 2, 3, 4])
         none_groups = [g for g in groups if rng.random() < 0.25]
         if len(none_groups) == len(groups):
@@ -144,29 +145,39 @@ def run(case):
     elif mode is not None:
         kw["wcses"] = mode
     why = []
+    fresh = lambda: [list(p) for p in pts]          # every call gets its own point lists  # noqa
     item, r = None, None
     try:
-        item = seq._get_sequence_crop_item(*pts, crop_by_values=not use_objects, **kw)
-        r = seq.crop(*pts, **kw) if use_objects else seq.crop_by_values(*pts, **kw)
+        item = seq._get_sequence_crop_item(*fresh(), crop_by_values=not use_objects, **kw)
+        r = seq.crop(*fresh(), **kw) if use_objects else seq.crop_by_values(*fresh(), **kw)
         exc = None
     except Exception as e:  # noqa
         exc = exc_name(e)
     out = {"t": "item", "item": [Q.enc_item(i) for i in item]} if item is not None else {"t": "err", "e": exc}
-    # ---- direct oracle: union over cubes of each cube's own box (nearest-pixel indices in that cube)
+    # ---- direct oracle: union over cubes of the box each cube's OWN crop uses (cube crop is C04's subject)
     starts, stops = [None] * nd, [None] * nd
-    for k in range(len(cubes)):
-        per_axis = {a: [] for a in range(nd)}
-        for p in pix_pts:
-            for px in range(nd):
-                a = nd - 1 - px
-                if a not in touched:
-                    continue
-                pos = p[px] - case["shifts"][k][px]            # pixel position of the point in cube k
-                per_axis[a].append(int(np.floor(float(pos) + 0.5)))
+    own_exc = None
+    for k, cube in enumerate(cubes):
+        ckw = {}
+        if mode == "list":
+            ckw["wcs"] = cube.wcs
+        elif mode == "foreign":
+            ckw["wcs"] = kw["wcses"][k]
+        elif mode is not None:
+            ckw["wcs"] = getattr(cube, mode)
+        try:
+            own = (cube._get_crop_item(*fresh(), keepdims=True, **ckw) if use_objects
+                   else cube._get_crop_by_values_item(*fresh(), keepdims=True, **ckw))
+        except Exception as e:  # noqa
+            own_exc = exc_name(e)
+            break
         for a in range(nd):
-            lo, hi = (0, shape[a]) if not per_axis[a] else (max(min(per_axis[a]), 0), min(max(per_axis[a]) + 1, shape[a]))
+            lo, hi, _ = own[a].indices(shape[a])
             starts[a] = lo if starts[a] is None else min(starts[a], lo)
             stops[a] = hi if stops[a] is None else max(stops[a], hi)
+    if own_exc is not None:
+        # the points are not valid for cube crop on some cube: outside the quantifier
+        return {"out": {"t": "err", "e": exc or own_exc}, "oracle": {"ok": True, "why": "", "finding": None}, "world": None, "skip": True}
     if exc is not None:
         why.append(f"sequence crop raised {exc} on points valid for cube crop")
     else:
@@ -188,7 +199,7 @@ def run(case):
 def coq_case(case, res):
     o = res["out"]
     nd = len(case["shape"])
-    if case.get("tabs"):
+    if case.get("tabs") or res.get("skip"):
         return "mk [] 0%nat [] (OItem [ISlice (Some 0) (Some 0) None])"        # extra coords: left to the direct oracle
     cubes = []
     for k in range(len(case["shifts"])):
